@@ -96,8 +96,7 @@ class Facts:
         fh = self._fh.get(fn)
         if fh is None:
             fh = self._fh[fn] = open(os.path.join(self.dir, fn), 'rb')
-        fh.seek(off)
-        a = json.loads(fh.read(ln))
+        a = json.loads(os.pread(fh.fileno(), ln, off))     # positioned read: forked children share the descriptor, not an offset they could race on
         self._astcache[usr] = a
         return a
 
